@@ -18,6 +18,14 @@ def chain(tag, profile, quick, thorough, checker, **kw):
     d.update(kw)
     return d
 
+ANTE_RULE = ("seeded transaction shapes on a fresh application in a fixed base state (validator 0 with a current and a former feeder, tenant 1 with two admins, "
+             "a pending record, an open prevote): single messages, lists mixing restricted and harmless messages, authz exec nesting to depth 7, grants of restricted types, "
+             "explicit fee payers; actors: operator, feeder, former feeder, stranger, tenant admin; every message is built so that its handler would succeed; "
+             "non-trivial: the shape contains a settlement, oracle or create-validator message")
+ANTE_ASSUME = ["signature verification, sequence numbers and the remaining SDK/evmos decorators are trusted; the generator keeps them satisfied",
+               "x/authz dispatch executes every inner message of an accepted MsgExec (all-or-nothing): code 0 means every leaf took effect",
+               "the base state is fixed; the delegation history is one former and one current feeder"]
+
 def func(tag, cmd, quick, thorough, mismatch, checker, **kw):
     d = dict(tag=tag, cmd=[cmd], quick=quick, thorough=thorough, mismatch_fn=mismatch, checker_fn=checker,
              shards_quick=2, shards_thorough=8, kind='func')
@@ -68,6 +76,17 @@ PROPS = {
         fields=[3, 4, 14, 15, 20],
         rule=CHAIN_RULE + "; request ids include the empty string, prefixes of each other, NUL bytes and ids shared between tenants",
         assumptions=SETTLE_ASSUME),
+    'C03': dict(
+        theorems=['C03_only_operator_or_feeder', 'C03_oracle_message_alone', 'C03_only_named_validator'],
+        runs=[func('ante', 'ante', 240, 6000, 'ante_mismatches', 'ante_check_C03', fields=[1, 2], shards_quick=8, shards_thorough=16),
+              chain('oracle', 'oracle', 24, 800, 'check_C08')],
+        fields=[7, 8, 9, 20],
+        rule=ANTE_RULE, assumptions=ANTE_ASSUME),
+    'C04': dict(
+        theorems=['C04_no_validator_creation', 'C04_settlement_only_fixed_fee', 'C04_no_restricted_grant'],
+        runs=[func('ante', 'ante', 240, 6000, 'ante_mismatches', 'ante_check_C04', fields=[1, 2], shards_quick=8, shards_thorough=16)],
+        fields=[1, 2],
+        rule=ANTE_RULE, assumptions=ANTE_ASSUME),
     'C05': dict(
         theorems=['C05_accept_iff', 'C05_repetition_irrelevant', 'C05_only_active_count', 'C05_inactive_no_voice', 'C05_fill', 'C05_fill_rec'],
         runs=[chain('oracle', 'oracle', 56, 2000, 'check_C05'),
@@ -147,7 +166,12 @@ C17_LEVEL = dict(text="Unbounded theorems: for every state reachable by any hist
 
 SETTLE_TECH = "Coq proof: invariant by induction over histories of the generalised settlement machine (arbitrary oracle fills and fault plans) + differential correspondence via vm_compute on ABCI histories"
 
+ANTE_TECH = "Coq proof: structural induction over nested message trees with the authz limiter's nesting counter modelled as coded + differential correspondence on transaction shapes through ABCI"
 LEVELS = {
+    'C03': dict(text="Unbounded theorems over ALL transaction shapes (any message list, authz exec nested to any depth, grants, any signer / fee payer): every oracle message an admitted transaction executes is covered by the signature of the validator's operator or current feeder; an admitted transaction that executes an oracle message consists of exactly that message; handlers change only the named validator's ballot. Correspondence: ~240 shapes per run delivered through ABCI, admitted <-> code 0 compared with the model, effects on ballots observed.",
+                note=PROOF_NOTE, technique=ANTE_TECH),
+    'C04': dict(text="Unbounded theorems over ALL transaction shapes: after genesis no admitted transaction executes a create-validator message; a settlement message is executed only as a top-level message of a pure settlement transaction that offers the fixed fee; no authz grant of a restricted type is admitted. Proved against the limiter's recursive check with its running nesting counter as coded. Correspondence on shapes through ABCI incl. nesting up to and beyond the limit.",
+                note=PROOF_NOTE, technique=ANTE_TECH),
     'C17': C17_LEVEL,
     'C01': dict(text="Unbounded theorems over all histories of the settlement machine with arbitrary oracle input and fault plans: every record id is recorded once and resolved at most once, only after it was recorded; pending = recorded minus resolved; paid amounts are the floor split and sum to at most the amount; native treasuries are debited by exactly the paid total. Correspondence: ABCI histories (incl. genesis-imported multi-recipient records and back-end faults) compared with the model on records, index, balances and typed events; the implementation's own events and balances are checked against the property.",
                 note=PROOF_NOTE, technique=SETTLE_TECH),
@@ -176,4 +200,4 @@ LEVELS = {
 }
 
 NOT_APPLICABLE = {p: "work in progress in this session: model exists, check not yet registered" for p in
-                  ['C03','C04','C13','C16','C18','C19','C20']}
+                  ['C13','C16','C18','C19','C20']}
